@@ -14,7 +14,7 @@ DEFAULT = dict(
     w_connect=6, w_claim=8, w_allocate=4, w_release=5, w_open=8, w_add=10, w_close=7, w_list=3, w_ping=1,
     w_malformed=3, w_drop=4, w_sweep=2, w_restart=1, w_crash=0, w_fault=0, w_reconnect=4, w_bigjump=1,
     usage=None, blur=None, allow_list=None, int_ids=False, moods=["happy", "lonely", "errory", "scary", "weird", None],
-    p_badcv=0.0, extra_keys=True, quiesce=False, timer=False, welcome=False, start=8000, period=2400, expiration=5280, p_fault=0.0,
+    p_badcv=0.0, p_near_ids=0.0, extra_keys=True, quiesce=False, timer=False, welcome=False, start=8000, period=2400, expiration=5280, p_fault=0.0,
 )
 
 
@@ -78,6 +78,12 @@ class Gen(object):
         pool = list(self.known_mb.get(app, []))
         for m in self.p["client_mailboxes"]:
             pool.append(m if self.p["shared_mailbox_ids"] else "%s-%s" % (app, m))
+        if self.p.get("p_near_ids", 0.0) and pool and self.r.random() < self.p["p_near_ids"]:
+            # ids that contain / are contained in / share a prefix with an id in use
+            base = self.r.choice(pool)
+            pool.append(self.r.choice(["x" + base, base + "x", "backup-" + base, base[:-1] or "z", base[1:] or "z", base.upper(),
+                                       base + "%", "_" + base[1:]]))
+            return pool[-1:]
         return pool
 
     # -- ops
